@@ -236,7 +236,7 @@ Definition main_blocked (s : state) : bool := match mn s with MDeliver _ _ => tr
 Definition judge_lock (ti tobs : tree) : tree :=
   match dec_lock ti, tobs with
   | Some i, T [netdump; snap0; T snaps; waits] =>
-      if negb (in_domain_e1 (li_cfgs i)) then out_of_domain else
+      if negb (in_domain_e1 (li_cfgs i)) || (li_T i <? 1)%nat then out_of_domain else
       match getZs waits with
       | None => malformed
       | Some waits =>
@@ -258,11 +258,12 @@ Definition judge_lock (ti tobs : tree) : tree :=
 
 Definition judge_free (ti tobs : tree) : tree :=
   match ti, tobs with
-  | T (L 0 :: _ :: T cfgs :: _), T [netdump; T trace; T ctrs; T [L stall_ok; L cut; T stalls]] =>
+  | T (L 0 :: L tmo :: T cfgs :: _), T [netdump; T trace; T ctrs; T [L stall_ok; L cut; T stalls]] =>
       match mapM (dec_cfg 64) cfgs with
       | None => malformed
       | Some cfgs =>
-          if negb (in_domain_e1 cfgs) then out_of_domain else
+          (* a shutdown timeout below 2 s makes 'ends clean' a race with the drain itself: outside the domain *)
+          if negb (in_domain_e1 cfgs) || (tmo <? 2) then out_of_domain else
           let nt := flatten cfgs in
           match mapM (dec_tev nt) trace, mapM dec_counters ctrs with
           | Some tr, Some ks =>
